@@ -136,8 +136,11 @@ def run(chk):
             meta.append((lang, style, pos, d, text))
     nbad = 0
     rejected = set()
-    for part in common.chunks(list(range(len(events))), 4000):
-        ok, matched, tres = common.trace_validate("Trace_C15", [events[i] for i in part], timeout=1800, heap="8g")
+    import concurrent.futures as cf
+    parts = list(common.chunks(list(range(len(events))), 4000))
+    with cf.ThreadPoolExecutor(max_workers=4) as ex:
+        verdicts = list(ex.map(lambda part: common.trace_validate("Trace_C15", [events[i] for i in part], timeout=1800, heap="4g"), parts))
+    for part, (ok, matched, tres) in zip(parts, verdicts):
         chk.add_tlc("Trace_C15", tres)
         if matched != len(part):
             raise ToolError(f"Trace_C15 consumed {matched}/{len(part)}")
